@@ -4,9 +4,9 @@ package harness
 
 import (
 	"os"
-	"syscall"
 	"path/filepath"
 	"strings"
+	"syscall"
 )
 
 // ensureRaceLog re-executes the race build with a report file when it was
